@@ -36,8 +36,17 @@ fn legs_of(log: &[BankEv]) -> Vec<Leg> {
             v.push((k.to_string(), e.from.clone(), e.to.clone(), c.denom.clone(), c.amount.u128()));
         }
     }
-    v.sort();
-    v
+    net(v)
+}
+
+/// transfers netted per (kind, from, to, denom): the statement speaks of what each party ends up
+/// with, not of how many messages carry it (two fees of one denom may travel in one transfer)
+fn net(v: Vec<Leg>) -> Vec<Leg> {
+    let mut m: BTreeMap<(String, String, String, String), u128> = BTreeMap::new();
+    for (k, f, t, d, a) in v {
+        *m.entry((k, f, t, d)).or_default() += a;
+    }
+    m.into_iter().filter(|(_, a)| *a > 0).map(|((k, f, t, d), a)| (k, f, t, d, a)).collect()
 }
 
 /// balances after applying the legs to `pre`
@@ -301,7 +310,7 @@ impl Monitor for C04 {
             }
             _ => return,
         }
-        expected.sort();
+        let expected = net(expected);
         let actual = legs_of(s.out.log());
         let recv_is = match msg {
             pm::ExecuteMsg::Swap { receiver, .. } | pm::ExecuteMsg::ExecuteSwapOperations { receiver, .. } => {
